@@ -10,6 +10,42 @@ mod sexp;
 mod sval;
 
 use dtarget::{DTarget, DVal};
+
+/// Counting allocator: allocations made while COUNTING is on (per thread)
+struct Counting;
+thread_local! {
+	static COUNTING: std::cell::Cell<bool> = const { std::cell::Cell::new(false) };
+	static ALLOCS: std::cell::Cell<(usize, usize)> = const { std::cell::Cell::new((0, 0)) };
+}
+unsafe impl std::alloc::GlobalAlloc for Counting {
+	unsafe fn alloc(&self, l: std::alloc::Layout) -> *mut u8 {
+		let _ = COUNTING.try_with(|c| {
+			if c.get() {
+				let _ = ALLOCS.try_with(|a| {
+					let (n, m) = a.get();
+					a.set((n + 1, m.max(l.size())));
+				});
+			}
+		});
+		std::alloc::System.alloc(l)
+	}
+	unsafe fn dealloc(&self, p: *mut u8, l: std::alloc::Layout) {
+		std::alloc::System.dealloc(p, l)
+	}
+	unsafe fn realloc(&self, p: *mut u8, l: std::alloc::Layout, new_size: usize) -> *mut u8 {
+		let _ = COUNTING.try_with(|c| {
+			if c.get() {
+				let _ = ALLOCS.try_with(|a| {
+					let (n, m) = a.get();
+					a.set((n + 1, m.max(new_size)));
+				});
+			}
+		});
+		std::alloc::System.realloc(p, l, new_size)
+	}
+}
+#[global_allocator]
+static GLOBAL: Counting = Counting;
 use sexp::{hex, Sx};
 use std::io::{BufRead, Write};
 
@@ -147,6 +183,95 @@ fn cmd_hist(a: &[Sx]) -> Result<String, String> {
 	Ok(out)
 }
 
+thread_local! {
+	static CURRENT_TARGET: std::cell::RefCell<Option<DTarget>> = const { std::cell::RefCell::new(None) };
+}
+/// A `Deserialize` type for APIs that do not take a seed: records the callbacks for the target
+/// stored in CURRENT_TARGET
+struct Recorded(DVal);
+impl<'de> serde::Deserialize<'de> for Recorded {
+	fn deserialize<D: serde::Deserializer<'de>>(d: D) -> Result<Self, D::Error> {
+		use serde::de::DeserializeSeed;
+		let t = CURRENT_TARGET.with(|c| c.borrow().clone()).expect("target set");
+		(&t).deserialize(d).map(Recorded)
+	}
+}
+
+/// sos SCHEMA SVAL : single-object serialization
+fn cmd_sos(a: &[Sx]) -> Result<String, String> {
+	let schema = get_schema(&a[0])?;
+	let v = sval::SVal::from_sx(&a[1])?;
+	let mut cfg = serde_avro_fast::ser::SerializerConfig::new(&schema);
+	Ok(match serde_avro_fast::to_single_object_vec(&v, &mut cfg) {
+		Ok(b) => format!("(ok {} {})", hex(&b), hex(schema.rabin_fingerprint())),
+		Err(e) => format!("(err {})", esc(&e.to_string())),
+	})
+}
+
+/// sod SCHEMA TARGET xBYTES MODE : single-object deserialization (slice | (chunks ...))
+fn cmd_sod(a: &[Sx]) -> Result<String, String> {
+	let schema = get_schema(&a[0])?;
+	let target = DTarget::from_sx(&a[1])?;
+	let bytes = a[2].bytes()?;
+	let (mh, ma) = a[3].head()?;
+	CURRENT_TARGET.with(|c| *c.borrow_mut() = Some(target));
+	let res = match mh {
+		"slice" => {
+			dtarget::INPUT.with(|c| c.set((bytes.as_ptr() as usize, bytes.len())));
+			let r = serde_avro_fast::from_single_object_slice::<Recorded>(&bytes, &schema);
+			dtarget::INPUT.with(|c| c.set((0, 0)));
+			r
+		}
+		"chunks" => {
+			let plan = ma.iter().map(|s| s.int::<usize>()).collect::<Result<Vec<_>, _>>()?;
+			serde_avro_fast::from_single_object_reader::<_, Recorded>(io::ChunkedReader::new(bytes.clone(), plan), &schema)
+		}
+		other => return Err(format!("unknown mode {other}")),
+	};
+	Ok(match res {
+		Ok(Recorded(d)) => format!("(ok {d})"),
+		Err(e) => format!("(err {} {})", if e.io_error().is_some() { "io" } else { "data" }, esc(&e.to_string())),
+	})
+}
+
+/// dealloc SCHEMA xBYTES MODE [CFG] : decode into IgnoredAny counting the heap allocations made during the call
+/// -> (ok REST ALLOCS MAXSIZE) | (err ALLOCS MAXSIZE)
+fn cmd_dealloc(a: &[Sx]) -> Result<String, String> {
+	let schema = get_schema(&a[0])?;
+	let bytes = a[1].bytes()?;
+	let (cfg, max_alloc) = de_cfg(&schema, a.get(3))?;
+	let (mh, ma) = a[2].head()?;
+	ALLOCS.with(|c| c.set((0, 0)));
+	let out = match mh {
+		"slice" => {
+			let mut st = serde_avro_fast::de::DeserializerState::with_config(serde_avro_fast::de::read::SliceRead::new(&bytes), cfg);
+			COUNTING.with(|c| c.set(true));
+			let res: Result<serde::de::IgnoredAny, _> = serde::Deserialize::deserialize(st.deserializer());
+			COUNTING.with(|c| c.set(false));
+			let mut reader = st.into_reader();
+			let mut rest = Vec::new();
+			std::io::Read::read_to_end(&mut reader, &mut rest).unwrap();
+			(res.is_ok(), rest.len())
+		}
+		"chunks" => {
+			let plan = ma.iter().map(|s| s.int::<usize>()).collect::<Result<Vec<_>, _>>()?;
+			let mut rr = serde_avro_fast::de::read::ReaderRead::new(io::ChunkedReader::new(bytes.clone(), plan));
+			if let Some(m) = max_alloc {
+				rr.max_alloc_size = m;
+			}
+			let mut st = serde_avro_fast::de::DeserializerState::with_config(rr, cfg);
+			COUNTING.with(|c| c.set(true));
+			let res: Result<serde::de::IgnoredAny, _> = serde::Deserialize::deserialize(st.deserializer());
+			COUNTING.with(|c| c.set(false));
+			let r = st.into_reader().into_inner();
+			(res.is_ok(), r.remaining())
+		}
+		other => return Err(format!("unknown mode {other}")),
+	};
+	let (n, m) = ALLOCS.with(|c| c.get());
+	Ok(if out.0 { format!("(ok {} {n} {m})", out.1) } else { format!("(err {n} {m})") })
+}
+
 fn cmd_fp(a: &[Sx]) -> Result<String, String> {
 	// fp SCHEMA_NODES : canonical form text (hook H1) and fingerprint of a node graph
 	let s = schema::schema_from_sx(&a[0])?;
@@ -211,6 +336,9 @@ fn run_case(line: &str) -> String {
 		"parse" => cmd_parse(args),
 		"freeze" => cmd_freeze(args),
 		"hist" => cmd_hist(args),
+		"sos" => cmd_sos(args),
+		"dealloc" => cmd_dealloc(args),
+		"sod" => cmd_sod(args),
 		"cw" => container::cmd_cw(args),
 		"cr" => container::cmd_cr(args),
 		"apache_read" => apache::cmd_apache_read(args),
